@@ -99,9 +99,42 @@ package rapidcore
 
 // C10 / C07: the goroutines started by Invoke must not crash the process.
 
+//@ event TimeoutFired = recv local:rapidcore.(*Server).Invoke.timeoutChan
+//@ event ReleaseFailedSeen = recv local:rapidcore.(*Server).Invoke.releaseErrChan
+//@ event ReleaseSucceededSeen = recv local:rapidcore.(*Server).Invoke.releaseSuccessChan
+//@ event ReleaseFailedSent = send local:rapidcore.(*Server).Invoke.releaseErrChan
+//@ event ReleaseSucceededSent = send local:rapidcore.(*Server).Invoke.releaseSuccessChan
+//@ event ServerReset = call rapidcore.(*Server).Reset
+//@ event ServerReleased = call rapidcore.(*Server).Release
+//@ event ReleaseAwaited = ret rapidcore.(*Server).AwaitRelease
+//@ event ReleaseAwaitedFailedDone = ret rapidcore.(*Server).AwaitRelease when r1 == ErrInitDoneFailed || r1 == ErrInvokeDoneFailed
+//@ event ReserveTried = ret rapidcore.(*Server).Reserve
+//@ event ReserveRefused = ret rapidcore.(*Server).Reserve when r0 == nil
+//@ event InitFailuresRead = ret rapidcore.(*Server).getInitFailuresChan
+//@ const resetDefaultTimeoutMs == 2000
+//@ const autoresetReasonTimeout == "Timeout"
+
+// C05 / C07: one invocation has exactly one of three outcomes; a timeout resets the environment (reason Timeout, 2000 ms)
+// and waits for the release goroutine to report before the timeout is returned
+//@ func (*Server).Invoke
+//@   requires s != nil && invoke != nil
+//@   ensures [not-initialised] delta(InitFailuresRead) == 1 && (lastret(InitFailuresRead) == nil ==> r0 == ErrInitNotStarted && delta(ServerReset) == 0 && delta(TimeoutFired) == 0)
+//@   ensures [exactly-one-report-from-the-release-goroutine] lastret(InitFailuresRead) != nil ==> delta(ReleaseFailedSeen) + delta(ReleaseSucceededSeen) == 1 && delta(TimeoutFired) <= 1
+//@   ensures [timeout-resets-then-reports-the-timeout] delta(TimeoutFired) == 1 ==> delta(ServerReset) == 1 && lastarg(ServerReset, 1) == autoresetReasonTimeout && lastarg(ServerReset, 2) == resetDefaultTimeoutMs && first(TimeoutFired) < first(ServerReset) && (delta(ReleaseFailedSeen) == 1 ==> last(ServerReset) < first(ReleaseFailedSeen)) && (delta(ReleaseSucceededSeen) == 1 ==> last(ServerReset) < first(ReleaseSucceededSeen))
+//@   ensures [success-releases-the-reservation] delta(TimeoutFired) == 0 && delta(ReleaseSucceededSeen) == 1 ==> r0 == nil && delta(ServerReleased) == 1 && delta(ServerReset) == 0
+//@   ensures [failure-is-handed-on-without-a-second-reset] delta(TimeoutFired) == 0 && delta(ReleaseFailedSeen) == 1 ==> delta(ServerReset) == 0 && delta(ServerReleased) == 0
+
+// the timer goroutine sends nothing but the timeout error, at most once (what Invoke returns after a timeout is what it received)
+//@ event TimeoutSent = send local:rapidcore.(*Server).Invoke.timeoutChan
+//@ func (*Server).Invoke$1
+//@   ensures [only-the-timeout-error] delta(TimeoutSent) <= 1 && (delta(TimeoutSent) == 1 ==> lastarg(TimeoutSent, 0) == ErrInvokeTimeout)
+
+// the release goroutine: exactly one report; an init/invoke DONE(fail) resets the environment before it is reported
 //@ func (*Server).Invoke$2
 //@   safety on
 //@   requires s != nil && invoke != nil
+//@   ensures [exactly-one-report] delta(ReleaseFailedSent) + delta(ReleaseSucceededSent) <= 1 && (delta(ReserveRefused) == 1 ==> delta(ReleaseFailedSent) == 1 && delta(ReleaseAwaited) == 0)
+//@   ensures [done-failed-resets-before-reporting] delta(ReleaseAwaitedFailedDone) == 1 ==> delta(ServerReset) == 1 && lastarg(ServerReset, 1) == autoresetReasonReleaseFail && delta(ReleaseFailedSent) == 1 && first(ServerReset) < first(ReleaseFailedSent)
 
 
 //@ func (*Server).SendResponse
@@ -160,3 +193,21 @@ package rapidcore
 //@   ensures [runtime's-own-init-error-wins] delta(InvokeFailedHere) == 1 ==> (lastret(CachedInitErrorRead) != nil ==> lastarg(DefaultErrorSent, 1) == lastret(CachedInitErrorRead)) && (lastret(CachedInitErrorRead) == nil ==> lastarg(DefaultErrorSent, 1) != nil)
 //@   ensures [reset-takes-over-silently] delta(InvokeResetTookOver) == 1 ==> delta(DefaultErrorSent) == 0 && delta(InvokeDoneSent) == 0
 //@   ensures [success-done-only] delta(InvokeSucceeded) == 1 ==> delta(DefaultErrorSent) == 0 && delta(InvokeDoneSent) == 1
+
+// C05: a reset of the server: the sandbox is reset and cleared (rapid side), then the server is cleared and goes back to
+// idle / not started, then exactly one DONE is sent; Reset itself returns only after that DONE and releases the reservation
+//@ event ResetDoneSent = send rapidcore.Server.ResetDoneChan
+//@ event ResetDoneSeen = recv rapidcore.Server.ResetDoneChan
+//@ event ResetWorkerStarted = call rapidcore.(*Server).Reset$1
+//@ event SandboxReset = call interop.(SandboxContext).Reset
+//@ event ServerCleared = call rapidcore.(*Server).Clear
+//@ event RapidHandleReset = call interop.(RapidContext).HandleReset
+//@ event RapidClear = call interop.(RapidContext).Clear
+//@ func (*Server).Reset
+//@   requires s != nil
+//@   ensures [returns-after-the-done-of-its-worker] delta(ResetWorkerStarted) == 1 && delta(ResetDoneSeen) == 1 && delta(ServerReleased) == 1 && first(ResetWorkerStarted) < first(ResetDoneSeen) && first(ResetDoneSeen) < first(ServerReleased)
+//@ func (*Server).Reset$1
+//@   requires s != nil && reset != nil
+//@   ensures [sandbox-reset-then-clear-then-one-done] delta(SandboxReset) == 1 && delta(ServerCleared) == 1 && delta(ResetDoneSent) == 1 && first(SandboxReset) < first(ServerCleared) && first(ServerCleared) < first(ResetDoneSent)
+//@ func (SandboxContext).Reset
+//@   ensures [reset-then-clear] delta(RapidHandleReset) == 1 && delta(RapidClear) == 1 && first(RapidHandleReset) < first(RapidClear)
